@@ -33,7 +33,7 @@ def fn : Fn Float :=
   { sqrt := Float.sqrt, asin := Float.asin, abs := Float.abs, close := isclose,
     tol := 1e-8, eps := 1e-12,
     normalize := normalizeBy Float.sqrt, samePt := samePtBy isclose,
-    nearPt := nearPtBy Float.sqrt 1e-8 }
+    nearPt := nearPtBy Float.sqrt 1e-8, atan2 := Float.atan2, pi := Oracle.pi }
 
 def variantOf : Nat → Variant | 0 => .asIs | _ => .repaired
 
